@@ -36,6 +36,8 @@ def isEmptyPlain : Ty → Val → Bool
   | .leaf .float, .leaf (.num t) => isZeroTok t
   | .leaf .bool, .leaf (.bool b) => !b
   | .leaf .any, .leaf .null => true
+  | .leaf .map, .leaf .null => true
+  | .leaf .map, .leaf (.obj []) => true
   | .ptr _, .nilPtr => true
   | .slice _, .nilSlice => true
   | .slice _, .slice [] => true
